@@ -264,6 +264,16 @@ class Equals(ParametrizedDependentType):
     def check(self, value):
         return value in self.parameters
 
+    def __eq__(self, other):
+        return (
+            type(self) is type(other)
+            and frozenset(self.parameters) == frozenset(other.parameters)
+            and self.bound == other.bound
+        )
+
+    def __hash__(self):
+        return hash(frozenset(self.parameters)) ^ hash(self.bound)
+
     @classmethod
     def keygen(cls):
         return "{arg}"
